@@ -74,7 +74,7 @@ def gen_dataset_cfg(rng, flavor='general', big=False):
     cfg['dtypes']['tmpl'] = rng.choice(['float32', 'float32', 'float64'])
     cfg['dtypes']['feat'] = rng.choice(['float32', 'float32', 'float64'])
     cfg['dtypes']['amps'] = rng.choice(['float64', 'float64', 'float32'])
-    cfg['dtypes']['pos'] = rng.choice(['float64', 'float64', 'float32', 'int64'])
+    cfg['dtypes']['pos'] = rng.choice(['float64', 'float64', 'float32', 'int64', 'uint16', 'uint32'])
     cfg['dtypes']['wm'] = rng.choice(['float64', 'float64', 'float32'])
     # size outliers: hidden constants (neighbourhood 12/32, uint8/int16 id ranges, batch sizes)
     # only matter beyond the usual small sizes
@@ -90,6 +90,8 @@ def gen_dataset_cfg(rng, flavor='general', big=False):
         cfg['tmpl_scale'] = rng.choice([1e-6, 1e-5, 1e3])
     if rng.random() < 0.2:
         cfg['flat_channels'] = rng.choice([0.15, 0.4, 0.7])
+    if rng.random() < 0.15:
+        cfg['ks2_templates_ind'] = True
     for fam in ('times', 'stemplates', 'sclusters', 'amps', 'chmap'):
         if rng.random() < 0.3:
             cfg['colvec'].append(fam)
@@ -123,7 +125,8 @@ def gen_dataset_cfg(rng, flavor='general', big=False):
         cfg['raw'] = {'extra_channels': rng.choice([0, 0, 1, 3]),
                       'dtype': rng.choice(['int16', 'int16', 'float32', 'float64']),
                       'n_files': rng.choice([1, 1, 2]), 'ext': rng.choice(['.dat', '.bin']),
-                      'offset': rng.choice([0, 0, 8]), 'tail': rng.randint(1, 20),
+                      'offset': rng.choice([0, 0, 8]),
+                      'tail': rng.randint(1, 20) if rng.random() < 0.9 else rng.choice([0, -1]),
                       'permute_map': rng.random() < 0.6}
         fmt = rng.choice(['flat', 'flat', 'flat', 'npy', 'cbin'])
         if fmt == 'cbin':
@@ -264,11 +267,11 @@ def build_gt(cfg):
     # real probes are millimetres long and need not start at x = 0
     g.pos = g.pos * float(cfg.get('pos_scale', 1)) + np.array([float(cfg.get('x_shift', 0)), 0.])
     pdt = cfg['dtypes'].get('pos', 'float64')
-    if pdt == 'int64':
+    if pdt in ('int64', 'uint16', 'uint32'):
         ipos = np.round(g.pos * 4).astype(np.int64)     # integer coordinates (e.g. in um / 4)
-        if len(set(map(tuple, ipos))) == nc:
+        if len(set(map(tuple, ipos))) == nc and ipos.min() >= 0 and ipos.max() < 60000:
             g.pos = ipos.astype(np.float64)
-            g.pos_dtype = 'int64'
+            g.pos_dtype = pdt
     elif pdt == 'float32':
         fpos = g.pos.astype(np.float32)
         if len(set(map(tuple, fpos))) == nc:
@@ -551,6 +554,10 @@ def write_dataset(cfg, g, d):
         save('template_feature_ind.npy', g.tf_ind.astype(dts['find']))
         if g.tf_rows is not None:
             save('template_feature_spike_ids.npy', g.tf_rows.astype('int64'))
+    if cfg.get('ks2_templates_ind') and not cfg['sparse']:
+        # KiloSort2 writes templates_ind.npy (with an s) next to its DENSE templates: trivial rows
+        # 0..n_channels-1, a file the loader does not use
+        save('templates_ind.npy', np.tile(np.arange(cfg['nc'], dtype=np.float64), (cfg['nt'], 1)))
     for k, v in g.attrs.items():
         save('spike_%s.npy' % k, v)
     for kind in cfg.get('unreadable_attrs') or []:
